@@ -1,20 +1,20 @@
 (* C05 MMST (ignore-invalid; docs: "-1.0 if it does not connect and an extra penalty of -1.0 if it chooses an invalid
    action").  For every Inv state, every unfinished agent a and every action whose (clamped) node is not a legal move:
-   the agent keeps its position, route array, route index set and position index (nothing is moved on its behalf), and
-   its reward term is time_step + noop_penalty -- EXCEPT when the agent has already visited node N-1, where the noop
-   penalty is silently dropped (connected_nodes_index[agent, -1] wraps to the last node: action code -3 instead of -1).
-   Hence the documented penalty is REFUTED (C05_Mmst_penalty_refuted); everything else is proved. *)
+   the agent keeps its position, route array, route index set and position index (nothing is moved on its behalf), its
+   action code is INVALID_CHOICE and its reward term is time_step + noop_penalty -- always (after fix 49322d14; before it
+   the penalty was dropped for agents that had visited node N-1).  The step reward is the sum of the agents' terms and the
+   episode continues unless the time limit is reached or every agent is finished. *)
 Require Import JV.Base.Prelude JV.Base.JaxIndex JV.Base.Codec JV.Base.TimeStep JV.Model.Mmst JV.Proofs.Mmst_lib JV.Proofs.Mmst JV.Proofs.Mmst_Episode JV.Proofs.Mmst_Obs JV.Proofs.Mmst_Gen JV.Proofs.Mmst_Examples.
-Theorem C05_Mmst_illegal_move_partial c start s acts perm a :
+Theorem C05_Mmst_illegal_move c start s acts perm a :
   Inv c start s -> 0 <= a < cA c -> znth false (fin s) a = false ->
   legal_move (cA c) s a (jclamp (cN c) (znth 0 acts a)) = false ->
   let t := fst (step c s acts perm) in
   znth 0 (pos t) a = znth 0 (pos s) a /\ znth [] (conn t) a = znth [] (conn s) a
   /\ znth [] (cidx t) a = znth [] (cidx s) a /\ znth 0 (pidx t) a = znth 0 (pidx s) a
-  /\ faF c s acts perm a = (if visited s a (cN c - 1) then INVALID_ALREADY_TRAVERSED else INVALID_CHOICE)
-  /\ rew_term c s acts perm a = rt c + (if visited s a (cN c - 1) then 0 else rn c).
+  /\ faF c s acts perm a = INVALID_CHOICE
+  /\ rew_term c s acts perm a = rt c + rn c.
 Proof. exact (illegal_move c start s acts perm a). Qed.
-Print Assumptions C05_Mmst_illegal_move_partial.
+Print Assumptions C05_Mmst_illegal_move.
 Theorem C05_Mmst_reward_is_sum c start s acts perm : Inv c start s ->
   reward (snd (step c s acts perm)) = [zsum (tab (cA c) (rew_term c s acts perm))].
 Proof. exact (reward_sum c start s acts perm). Qed.
@@ -22,13 +22,12 @@ Proof. exact (reward_sum c start s acts perm). Qed.
 Theorem C05_Mmst_continues c s acts perm :
   st (snd (step c s acts perm)) = if all_true (fin (fst (step c s acts perm))) || (cT c <=? sc s + 1) then LAST else MID.
 Proof. exact (step_type c s acts perm). Qed.
-Theorem C05_Mmst_penalty_refuted :
-  exists c s acts perm a, legal_move (cA c) s a (znth 0 acts a) = false /\ znth false (fin s) a = false
-    /\ s = fst (init c ex_base ex_adj ex_comps) /\ rew_term c s acts perm a = rt c /\ rn c = -1.
-Proof. exists ex_cfg, ex_s0, [3; 0], [0; 1], 1. pose proof penalty_witness as H. repeat split; try apply H. Qed.
-Print Assumptions C05_Mmst_penalty_refuted.
+(* formerly C05_Mmst_penalty_refuted: the agent standing on node N-1 is now charged like any other *)
 Example C05_Mmst_nonvacuous :
   legal_move 2 ex_s0 1 0 = false /\ legal_move 2 ex_s0 0 3 = false
-  /\ rew_term ex_cfg ex_s0 [3; 0] [0; 1] 1 = -1 /\ rew_term ex_cfg ex_s0 [3; 0] [0; 1] 0 = -1 + -1
-  /\ reward (snd (step ex_cfg ex_s0 [3; 0] [0; 1])) = [-3].
-Proof. exact penalty_witness. Qed.
+  /\ visited ex_s0 1 5 = true
+  /\ rew_term ex_cfg ex_s0 [3; 0] [0; 1] 1 = -1 + -1
+  /\ rew_term ex_cfg ex_s0 [3; 0] [0; 1] 0 = -1 + -1
+  /\ reward (snd (step ex_cfg ex_s0 [3; 0] [0; 1])) = [-4]
+  /\ pos (fst (step ex_cfg ex_s0 [3; 0] [0; 1])) = pos ex_s0.
+Proof. exact penalty_example. Qed.
